@@ -88,7 +88,7 @@ fn from_hex<T: Deserial>(h: &str) -> T {
     v
 }
 
-pub const GROUPS: [&str; 9] = ["scalars", "transactions", "payloads", "updates", "credentials", "crypto", "misc", "statements", "web3v1"];
+pub const GROUPS: [&str; 10] = ["scalars", "transactions", "payloads", "updates", "credentials", "crypto", "misc", "statements", "web3v1", "idmisc"];
 
 pub fn run_group(ctx: &mut Tasks, group: &str) {
     match group {
@@ -101,6 +101,7 @@ pub fn run_group(ctx: &mut Tasks, group: &str) {
         "misc" => crate::c05c::misc(ctx),
         "statements" => crate::c05c::statements(ctx),
         "web3v1" => crate::c05c::web3v1(ctx),
+        "idmisc" => crate::c05c::idmisc(ctx),
         g => mc_core::machinery_error(&format!("unknown C05 group {g}")),
     }
 }
